@@ -36,14 +36,16 @@ def expected_round(a, p, n, mode):
         k = round_ratio(a, P10[sh], mode)
     if k == 0:
         return ("value", 0, 0, 18)
+    # the statement fixes the value (the multiple of 10^-n), not the number of fractional digits it is
+    # returned with: compare by value, at most max(n, 0) digits
     if n >= 0:
-        return ("exact", k, n)
+        return ("value", k, n, n)
     if -n > 40:
         return ("signal",)
     c = k * P10[-n]
     f = fits(c)
     if f == "fit":
-        return ("exact", c, 0)
+        return ("value", c, 0, 0)
     return ("dcany",) if f == "edge" else ("signal",)
 
 
